@@ -608,6 +608,15 @@ def sem2(o, keys):
         return Poly.sym(o[1] + "@S")
     if isinstance(o, (int, float)) and not isinstance(o, bool):
         return Poly.const(o)
+    if isinstance(o, SNum):
+        # an exact number of the rational/sqrt algebra (e.g. sqrt(3)): a constant when rational, otherwise an opaque positive constant
+        try:
+            p = o.r.as_poly()
+            if p.is_const():
+                return Poly.const(p.const_value())
+        except Exception:
+            pass
+        return Poly.sym("const:%r" % (o.r,))
     if o is None:
         raise NotAMask("None operand")
     if isinstance(o, str):
@@ -636,6 +645,8 @@ def sem2(o, keys):
                 return A * B
             if op in ("__truediv__", "__itruediv__") and B.is_const() and B.const_value() != 0:
                 return A / B
+            if op in ("__truediv__", "__itruediv__") and not B.is_const() and all(str(s_).startswith("const:") for s_ in B.symbols()):
+                return A * Poly.sym(Fn("1/", B))
         if h in ("+", "-", "*") and len(o) == 3:
             A, B = sem2(o[1], keys), sem2(o[2], keys)
             return A + B if h == "+" else A - B if h == "-" else A * B
@@ -674,6 +685,24 @@ def check_angular_momentum(run, tree):
                     raise Unsupported("np.sum(%r)" % (x,))
                 hk["class"]["core/array.py::Array"] = mixed_array
                 hk["ext"]["numpy.sum"] = np_sum
+
+                class Reduce(Model):
+                    """np.amax / np.amin ...: dispatched to a Vector through its __array_function__ (as numpy does), applied to an Array token directly"""
+
+                    def __init__(self, name, method):
+                        self.__name__, self.method = name, method
+
+                    def __call__(self, x, *a, **k):
+                        if isinstance(x, PyObj):
+                            mm = tree.method(x._cls, "__array_function__")
+                            if mm is None:
+                                raise Unsupported("np.%s(%r)" % (self.__name__, x))
+                            return ModelEval(tree, mm, {}, hk).invoke(mm, [x, self, (), (x,) + tuple(a), dict(k)], {}, None)
+                        if isinstance(x, ArrTok):
+                            return getattr(x, self.method)()
+                        raise Unsupported("np.%s(%r)" % (self.__name__, x))
+                for nm, meth in (("amax", "max"), ("max", "max"), ("amin", "min"), ("min", "min"), ("nanmax", "max"), ("nanmin", "min")):
+                    hk["ext"]["numpy." + nm] = Reduce(nm, meth)
                 pos, _ = make_vector(tree, {c: "P." + c for c in "xyz"}, unit="m", shape=(5,), hooks=hk)
                 vel, _ = make_vector(tree, {c: "W." + c for c in "xyz"}, unit="m/s", shape=(5,), hooks=hk)
                 data = {"position": pos, "velocity": vel, "mass": ArrTok("M", "g", (5,))}
